@@ -59,6 +59,9 @@ def cases(tier, rng, schema, feats):
             for idl in sorted(i for i in ids if i >= 0):
                 acd = "aa" * aag + ":" + rng.bytes(idl).hex() + ":" + "a5" * keylen
                 add("mc", rp, 0x41, 7, acd, "-")
+    # get_assertion flavour with Some(NoAttestedCredentialData): contributes no bytes
+    for flags in (0x01, 0x41, 0x81, 0xC5):
+        add("ga", rp, flags, 9, "::", "-")
     for idl in (65535, 65536, 70000):
         add("mc", rp, 0x41, 7, f"{'00' * 16}:{'11' * idl}:a0", "-")
     # with an extension map after the attested data
